@@ -252,3 +252,16 @@ reg("C09",
     rule="one evaluation = one cell (one handshake, or one inconsistent creation); non-trivial = at least one side must reject; distinct = distinct (transport, both policies, both credential kinds, where the server policy was set, role reversal, expected verdicts) cells",
     assumptions=["the peer's chain is what its tls.cert item carries plus the verifier's bundle; with check_crl a CRL of every issuer is supplied",
                  "TLS 1.3: a client may legitimately complete before the server has judged its certificate: verdicts are per side"])
+
+reg("C18",
+    title="each TLS connection uses the credentials designated at that moment",
+    technique="history monitor: the harness records what was designated (attributes first, else the XCM_TLS_CERT directory as it stands) at each connect/server/accept call of a random history of credential updates and compares it with the identity each side sees of its peer and with the trust decision; boundary-shift twin configurations against the context cache; heap steady state and same-size/inode/mtime rewrite probe for context release; malformed material => EPROTO; ASan+UBSan",
+    level_text="Random histories over three credential directories and a store of twelve identities under two roots: rewrite in place (padded to one size, same inode), rename over, symlink flip, XCM_TLS_CERT switch, per-socket attributes by file and by value on connect, server and accept, interleaved with opening up to 12 connections on up to 6 servers, re-checking established ones (message each way, unchanged peer identity) and closing. Each new connection must come up iff the bundles designated at the two calls admit each other, and tls.peer.cert.subject.cn on either side must name the identity designated for the other side's call. Twin by-value configurations with equal concatenated bytes but shifted item boundaries (key|tc, cert|key, tc|crl) are opened while the first is kept alive: the second must behave as it does alone. Release: heap growth per cycle over cycles with never-seen credentials, and a file rewritten with identical size, inode and mtime after everything was closed must be read again. Nine kinds of missing/empty/garbled/mismatching material must fail with EPROTO.",
+    level_note="A rewrite is made distinguishable by mtime (the kernel's coarse clock has millisecond granularity); which directory a server created under an earlier XCM_TLS_CERT uses after the variable changed is not judged.",
+    harness=STATES + ["c18.c"],
+    stages=[dict(variant="asan", cases={"quick": 480, "thorough": 12000}, timeout={"quick": 900, "thorough": 3400})],
+    floors={"quick": {"identities_verified": 800, "designated_rejections_verified": 150, "established_connections_rechecked": 100, "updates_rewrite_in_place": 150, "updates_rename_over": 150, "updates_symlink_flip": 150,
+                      "updates_env_switch": 100, "accept_overrides": 300, "twin_pairs_tried": 80, "release_probes_verified": 30, "malformed_material_cases": 300, "distinct_nontrivial": 8},
+            "thorough": {"identities_verified": 40000, "twin_pairs_tried": 2000, "release_probes_verified": 800, "distinct_nontrivial": 8}},
+    rule="one evaluation = one history of 28 (thorough 60) steps, one twin pair, one release experiment or one malformed-material sweep; distinct = distinct (family, transport, twin kind)",
+    assumptions=["an in-place rewrite differs from the previous content in mtime (the harness waits for a new clock tick)"])
